@@ -1,5 +1,6 @@
 CONSTANTS
   Triples <- TripMini
+  Pool <- PoolMini
   Export = TRUE
 SPECIFICATION Spec
 INVARIANT MirrorIsRef
